@@ -5,6 +5,14 @@ MCHistSpace == LET hs == ndJsonDeserialize(IOEnv.HISTS) IN {hs[i] : i \in DOMAIN
 
 \* after each class statement: print what every class created so far shows (replayed on the implementation)
 ViewOf(k) == IF cl[k].ok THEN ClassView(cl, fo, lst, k) ELSE [inv |-> <<>>, oncall |-> <<>>, onset |-> <<>>, members |-> [n \in {} |-> 0]]
+\* after every post-hoc decoration: the same projection, numbered after the class statements
+PrintPostHoc ==
+  (pc \in {"posthoc", "done"} /\ hist.posthoc # <<>> /\ di > 1) =>
+     PrintT(ToJson([hid |-> hist.hid, step |-> Len(hist.cls) + di - 1, res |-> "ok",
+                    views |-> [k \in 1..step |-> ViewOf(k)], regd |-> regd,
+                    lids |-> [k \in 1..step |-> IF cl[k].ok THEN [name \in Names |-> MemberListIds(cl, fo, lst, k, name)]
+                                                          ELSE [name \in Names |-> <<>>]],
+                    alias |-> [k \in 1..step |-> <<InvListOf(cl, k, "inv"), InvListOf(cl, k, "oncall"), InvListOf(cl, k, "onset")>>]]))
 PrintStep ==
   (pc = "next") => PrintT(ToJson([hid |-> hist.hid, step |-> step, res |-> res[step],
                                   views |-> [k \in 1..step |-> ViewOf(k)], regd |-> regd,
